@@ -16,6 +16,7 @@ var constantZero = constant.MakeInt64(0)
 func (t *tr) globals() string {
 	t.globalNames = map[string]string{}
 	t.globalTables = map[string]bool{}
+	t.globalAssoc = map[string]bool{}
 	t.ifaceUsed = map[string]bool{}
 	var b strings.Builder
 	if msg := t.checkStructs(); msg != "" {
@@ -33,6 +34,9 @@ func (t *tr) globals() string {
 	b.WriteString("Definition big_text16 (z : Z) : bytes := if (z <? 0)%Z then 45 :: map lower_ascii (hex_text (Z.to_N (- z))) else map lower_ascii (hex_text (Z.to_N z)).\n")
 	b.WriteString("(* crypto/rand.Read(buf) fills the whole buffer from the source (oracle parameter) and never reports an error *)\n")
 	b.WriteString("Definition rand_fill (buf src : bytes) : bytes := firstn (length buf) src ++ skipn (length src) buf.\n")
+	b.WriteString("Definition assoc_str (l : list (N * bytes)) (k : N) : bytes := match find (fun kv => N.eqb (fst kv) k) l with Some kv => snd kv | None => [] end.\n")
+	b.WriteString("Definition trim_prefix_go (p s : bytes) : bytes := if is_prefix p s then skipn (length p) s else s.\n")
+	b.WriteString("Definition splitn2_go (sep : N) (s : bytes) : list bytes := let '(a, b, found) := cut1 sep s in if found then [a; b] else [s].\n")
 	b.WriteString("Definition b32_decode_go (s : bytes) : bytes * option err :=\n  let '(bs, o) := b32_decode_string s in (bs, match o with Some off => Some (EBase32 off) | None => None end).\n\n")
 	for _, f := range t.pkg.Syntax {
 		for _, d := range f.Decls {
@@ -49,6 +53,8 @@ func (t *tr) globals() string {
 				switch v := vs.Values[0].(type) {
 				case *ast.CompositeLit:
 					if s := t.constTable(name, v); s != "" {
+						b.WriteString(s)
+					} else if s := t.assocTable(name, v); s != "" {
 						b.WriteString(s)
 					} else if s := t.hashTable(name, v); s != "" {
 						b.WriteString(s)
@@ -149,4 +155,28 @@ func (t *tr) paramLit(name string, cl *ast.CompositeLit) string {
 	}
 	t.globalNames[name] = "g_" + name
 	return fmt.Sprintf("Definition g_%s : option param := Some (mkParam %s %s %s %s).\n", name, vals["Digits"], vals["Period"], vals["Skew"], vals["Algorithm"])
+}
+
+// a map literal from integer constants to string constants (algoStrMap)
+func (t *tr) assocTable(name string, v *ast.CompositeLit) string {
+	m, ok := t.info.TypeOf(v).Underlying().(*types.Map)
+	if !ok || !isUnsigned(t.kindOf(m.Key())) || t.kindOf(m.Elem()) != kBytes || len(v.Elts) == 0 {
+		return ""
+	}
+	var items []string
+	for _, e := range v.Elts {
+		kv, ok := e.(*ast.KeyValueExpr)
+		if !ok {
+			return ""
+		}
+		kt, ok1 := t.info.Types[kv.Key]
+		vt, ok2 := t.info.Types[kv.Value]
+		if !ok1 || !ok2 || kt.Value == nil || vt.Value == nil {
+			return ""
+		}
+		items = append(items, fmt.Sprintf("(%s%%N, %s)", constant.ToInt(kt.Value).ExactString(), lit(kBytes, vt.Value, e, t)))
+	}
+	t.globalNames[name] = "g_" + name
+	t.globalAssoc[name] = true
+	return fmt.Sprintf("Definition g_%s : list (N * bytes) := [%s].\n", name, strings.Join(items, "; "))
 }
